@@ -13,13 +13,22 @@ pub struct Graph {
     pub adj: BTreeMap<G, Vec<(G, Option<Chan>)>>,
     /// per link index: Some(expected accepted) or None if the link references a module without gates
     pub link_ok: Vec<Option<bool>>,
+    /// hop directions (from, to) served by the very channel handle that was passed to `connect` (the direction
+    /// other -> self; self -> other gets a duplicate of its own)
+    pub uses_handle: BTreeSet<(G, G)>,
 }
 
 pub fn build_graph(prog: &NetProgram) -> Graph {
+    build_graph_with(prog, &[])
+}
+
+/// the graph after the connect calls of the builder and the given later ones
+pub fn build_graph_with(prog: &NetProgram, later: &[Link]) -> Graph {
     let flat: Vec<usize> = prog.modules.iter().map(|m| flat_gates(m).len()).collect();
     let mut adj: BTreeMap<G, Vec<(G, Option<Chan>)>> = BTreeMap::new();
     let mut link_ok = Vec::new();
-    for l in &prog.links {
+    let mut uses_handle = BTreeSet::new();
+    for l in prog.links.iter().chain(later.iter()) {
         let (am, bm) = (l.am as usize, l.bm as usize);
         if am >= flat.len() || bm >= flat.len() || flat[am] == 0 || flat[bm] == 0 {
             link_ok.push(None);
@@ -41,12 +50,15 @@ pub fn build_graph(prog: &NetProgram) -> Graph {
         if da < 2 && db < 2 {
             adj.entry(a).or_default().push((b, l.chan.clone()));
             adj.entry(b).or_default().push((a, l.chan.clone()));
+            if l.chan.is_some() {
+                uses_handle.insert(if l.flip { (a, b) } else { (b, a) });
+            }
             link_ok.push(Some(true));
         } else {
             link_ok.push(Some(false));
         }
     }
-    Graph { adj, link_ok }
+    Graph { adj, link_ok, uses_handle }
 }
 
 impl Graph {
@@ -161,19 +173,51 @@ pub fn check_c08(prog: &NetProgram, res: &NetResult, info: &mut RunInfo) {
     let mut slack: BTreeMap<u32, u64> = BTreeMap::new(); // sum of the jitter bounds of the hops
     // occupancy of every channel direction that can be busy: (enter, end of transmission, uid). Messages that would
     // overlap on such a hop queue up there - what a busy channel does is C07's subject, their arrival time is not judged
-    let mut occupancy: BTreeMap<(G, G), Vec<(u64, u64, u32)>> = BTreeMap::new();
+    let mut paths: Vec<(u32, u64, Vec<((G, G), u64, u64)>)> = Vec::new();
+    let mut total_jitter = 0u64;
+    // dynamic topology: connect calls issued by the driver while the simulation is paused. A message offered on a gate
+    // whose link does not exist yet has no defined destination: such programs are not judged
+    let mut late: Vec<(u64, Link)> = prog.late_links.iter().take(8).cloned().collect();
+    late.sort_by_key(|l| l.0);
+    let full_graphs: Vec<(u64, Graph)> = (0..late.len()).map(|k| (late[k].0, build_graph_with(prog, &late[..=k].iter().map(|l| l.1.clone()).collect::<Vec<_>>()))).collect();
+    let last_graph = full_graphs.last().map_or(&graph, |g| &g.1);
+    if last_graph.link_ok.iter().skip(prog.links.len()).any(|ok| *ok != Some(true)) {
+        return; // only legal later connects are part of the scenario
+    }
+    let late_gates: BTreeSet<G> = last_graph.adj.keys().filter(|g| last_graph.degree(**g) != graph.degree(**g)).copied().collect();
     for r in &res.trace {
         if let Ev::Offer { uid, gate, len, delay_ns, .. } = &r.ev {
             let from: G = (r.m as usize, *gate as usize);
+            // the graph in force when the message enters the chain
+            let enter = r.t + delay_ns;
+            let graph = full_graphs.iter().rev().find(|(at, _)| *at < r.t).map_or(&graph, |g| &g.1);
+            if !late.is_empty() {
+                let touches_late = late_gates.contains(&from) || last_graph.walk(from).iter().any(|h| late_gates.contains(&h.0));
+                if touches_late && (late.iter().any(|l| l.0 >= r.t) || *delay_ns != 0) {
+                    return;
+                }
+                info.probe_n("offer_over_a_link_connected_at_run_time", u64::from(touches_late));
+            }
+            let _ = enter;
             let hops = graph.walk(from);
             let mut t = r.t + delay_ns;
             let mut j = 0u64;
             let mut prev = from;
+            let mut path: Vec<((G, G), u64, u64)> = Vec::new();
             for (g, ch) in &hops {
                 if let Some(c) = ch {
                     let b = busy_ns(*len as usize, c.bitrate);
                     if b > 0 {
-                        occupancy.entry((prev, *g)).or_default().push((t, t + b + j, *uid));
+                        // links built from one shared handle share one channel object in the direction it serves
+                        let key = if prog.share_channels && graph.uses_handle.contains(&(prev, *g)) {
+                            let h = hash64(c) as usize;
+                            ((usize::MAX, h), (usize::MAX, h))
+                        } else {
+                            (prev, *g)
+                        };
+                        path.push((key, b, c.latency_ns));
+                    } else {
+                        path.push((((usize::MAX, usize::MAX), (usize::MAX, usize::MAX)), 0, c.latency_ns));
                     }
                     t += b + c.latency_ns;
                     j += c.jitter_ns;
@@ -182,6 +226,8 @@ pub fn check_c08(prog: &NetProgram, res: &NetResult, info: &mut RunInfo) {
                 prev = *g;
             }
             let far = hops.last().map_or(from, |h| h.0);
+            paths.push((*uid, r.t + delay_ns, path));
+            total_jitter = total_jitter.max(j);
             slack.insert(*uid, j);
             expected.insert(*uid, (far.0, t, far, r.m as usize));
             if *delay_ns > 0 {
@@ -189,17 +235,36 @@ pub fn check_c08(prog: &NetProgram, res: &NetResult, info: &mut RunInfo) {
             }
         }
     }
+    // which messages meet a busy channel: a small event-driven pass over all channel hops (FIFO per channel object,
+    // unbounded queue). A message that enters a hop while the channel is occupied - or within the jitter of everything
+    // before it - waits there; what a busy channel does is C07's subject, so its arrival time is not judged (nor is
+    // the one of the message it met, since at equal instants either may come first)
     let mut contended: BTreeSet<u32> = BTreeSet::new();
-    for v in occupancy.values_mut() {
-        v.sort_unstable();
-        for w in 0..v.len() {
-            for x in w + 1..v.len() {
-                if v[x].0 <= v[w].1 {
-                    contended.insert(v[w].2);
-                    contended.insert(v[x].2);
-                } else {
-                    break;
+    {
+        use std::cmp::Reverse;
+        let mut heap: std::collections::BinaryHeap<Reverse<(u64, usize, usize)>> = std::collections::BinaryHeap::new();
+        for (pi, (_, t0, path)) in paths.iter().enumerate() {
+            if !path.is_empty() {
+                heap.push(Reverse((*t0, pi, 0)));
+            }
+        }
+        let mut free_at: BTreeMap<(G, G), (u64, u32)> = BTreeMap::new();
+        while let Some(Reverse((t, pi, h))) = heap.pop() {
+            let (uid, _, path) = &paths[pi];
+            let (key, b, lat) = path[h];
+            let mut leave = t + b + lat;
+            if b > 0 {
+                let (free, holder) = free_at.get(&key).copied().unwrap_or((0, 0));
+                if free > 0 && t <= free + total_jitter {
+                    contended.insert(*uid);
+                    contended.insert(holder);
                 }
+                let start = t.max(free);
+                free_at.insert(key, (start + b, *uid));
+                leave = start + b + lat;
+            }
+            if h + 1 < path.len() {
+                heap.push(Reverse((leave, pi, h + 1)));
             }
         }
     }
